@@ -57,13 +57,13 @@ Proof.
 Qed.
 
 (* routing a header section writes exactly one slot and leaves data alone *)
-Lemma route_frame_data title letter sec l : l_data (route title letter sec l) = l_data l.
+Lemma route_frame_data v3 title letter sec l : l_data (route v3 title letter sec l) = l_data l.
 Proof. unfold route. repeat match goal with |- context [if ?b then _ else _] => destruct b end; reflexivity. Qed.
 
-Lemma route_custom_keeps_standard title letter sec l :
+Lemma route_custom_keeps_standard v3 title letter sec l :
   letter <> 67 -> letter <> 80 -> letter <> 86 -> letter <> 87 ->
   contains (s2l "~Log_Definition") title = false -> contains (s2l "~Log_Parameter") title = false ->
-  let l' := route title letter sec l in
+  let l' := route v3 title letter sec l in
   l_version l' = l_version l /\ l_well l' = l_well l /\ l_curves l' = l_curves l /\
   l_params l' = l_params l /\ l_other l' = l_other l.
 Proof.
